@@ -302,7 +302,7 @@ def prod_restart(e, tier="quick", ops=None):
     elif op == "bind2":
         shapes, oth = ["unbound"], ["none", "idle0"]
     else:
-        shapes, oth = ["fresh", "sub0", "claimed0"], ["none", "sub0s1", "idle0"]
+        shapes, oth = ["fresh", "sub0", "claimed0"], (["none", "sub0s1", "idle0"] if tier == "thorough" else ["none", "sub0s1"])
     xa = build(e, crowd=crowd, acting=shapes, others=oth, ghosts=ghosts, **bd)
     kf = kf_d6_for(cmd, xa)
     exa = apply_cmd(xa, cmd)
